@@ -2,6 +2,7 @@ SPECIFICATION MCSpec
 CONSTANTS Mode = "sort"
           Vals = {0, 1, 2}
           MaxLen = 4
+          MaxHeld = 0
 VIEW View
 INVARIANTS TypeOK Satisfiable RefSortAccepted RefusesBad SortedResult
 PROPERTIES Frame
